@@ -204,8 +204,19 @@ def run_case(spec, workdir):
         evlog.open_log(log)
         instr_mp.install("natural" if k == 1 else R.choice(["natural", "jitter", "slow_feeder", "slow_workers"]), spec["seed"])
 
+        def slow(f):
+            # in parallel runs some tiles take much longer than every (dilated) time-out of the shutdown handshake
+            def g(lon, lat):
+                if k > 1 and (float(lon[0, 0]) * 1e6) % 1.0 < 0.25:
+                    import time as _t
+
+                    _t.sleep(0.3)
+                return f(lon, lat)
+
+            return g
+
         def fn():
-            for s in passes:
+            for s in map(slow, passes):
                 if spec["entry"] == "sample_layer":
                     toast.sample_layer(pio, s, depth, coordsys=cs, parallel=k)
                 elif spec["entry"] == "sample_layer_filtered":
